@@ -22,9 +22,10 @@ class Group:
     pass
 
 
-def build(ex, shape, sym_soc=True):
+def build(ex, shape, sym_soc=True, wide_battery=False):
     """shape: tuple of (n_batteries, n_inverters) per group.  Returns (pairs, groups) with symbolic data and the
-    documented consistency assumptions."""
+    documented consistency assumptions.  wide_battery: the batteries' own capacity, SoC limits and power bounds are concrete
+    and non-binding (capacity 1, limits 0..100, bounds +-1e9, no exclusion zone); only their SoC and the inverter data stay symbolic."""
     A = ex.assume
     pairs, groups = [], []
     for g, (nb, ni) in enumerate(shape):
@@ -33,6 +34,8 @@ def build(ex, shape, sym_soc=True):
         bats, invs = [], []
         for b in range(nb):
             v = {k: ex.real(f"g{g}b{b}_{k}") for k in ("cap", "soc", "slo", "shi", "il", "el", "eu", "iu")}
+            if wide_battery:
+                v.update(cap=1.0, slo=0.0, shi=100.0, il=-1e9, el=0.0, eu=0.0, iu=1e9)
             A(E(v["cap"]) > 0)
             A(z3.And(E(v["slo"]) >= 0, E(v["slo"]) <= E(v["shi"]), E(v["shi"]) <= 100))
             A(z3.And(E(v["soc"]) >= 0, E(v["soc"]) <= 100))
